@@ -1224,19 +1224,28 @@ def make_amatrix(u, v, order, constant=True):
 
 
 def invert_for_coeffs(amatrix, x, y, lsolve=True):
-    # a^T a
-    ata = np.inner(amatrix, amatrix)
-    # a^T x
-    atx = np.inner(amatrix, x)
-    # a^T y
-    aty = np.inner(amatrix, y)
-
     if lsolve:
-        # More stable solver
-        xcoeffs = np.linalg.solve(ata, atx)
-        ycoeffs = np.linalg.solve(ata, aty)
+        # Solve the least squares problem on the design matrix itself.  The
+        # normal equations square its condition number: for a reference
+        # pixel far outside the image a^T a is singular to working precision
+        # and the fitted inverse was off by 1e-2 pixels
+        # The columns (monomials of pixel or degree offsets) differ by many
+        # orders of magnitude; scale each to unit length first so that no
+        # term falls under the rank cutoff
+        scale = np.sqrt((amatrix * amatrix).sum(axis=1))
+        scale[scale == 0] = 1.0
+        design = (amatrix / scale[:, np.newaxis]).T
+        xcoeffs = np.linalg.lstsq(design, x, rcond=None)[0] / scale
+        ycoeffs = np.linalg.lstsq(design, y, rcond=None)[0] / scale
 
     else:
+        # a^T a
+        ata = np.inner(amatrix, amatrix)
+        # a^T x
+        atx = np.inner(amatrix, x)
+        # a^T y
+        aty = np.inner(amatrix, y)
+
         atainv = np.linalg.inv(ata)
         # atainv = np.linalg.pinv(ata)
         xcoeffs = np.inner(atainv, atx)
